@@ -26,7 +26,8 @@ CHECKS = {
             dict(harness="C01_F2", panicnil=[0, 1], cover=["accepted", "rejected"], bounds="all inputs of exactly 2 " + D),
             dict(harness="C01_F3", panicnil=[0, 1], cover=["accepted", "rejected"], bounds="all inputs of exactly 3 " + D),
             dict(harness="C01_T1", panicnil=[1], cover=["accepted", "rejected"], bounds="43 templates x every position replaced by one symbolic rune over D"),
-            dict(harness="C01_Sources", bounds="43 concrete templates through string/[]byte/bufio.Reader/io.Reader"),
+            dict(harness="C01_AliasQ", cover=["accepted"], bounds="alias a = one free ASCII byte (+ optional blank), alias b = x, input 'a b; a'"),
+            dict(harness="C01_Sources", bounds="52 concrete templates through string/[]byte/bufio.Reader/io.Reader"),
         ],
         "thorough": [
             dict(harness="C01_F1", panicnil=[0, 1], cover=["accepted", "rejected"]),
